@@ -197,7 +197,7 @@ ResumeChoices(S, n, nb, m) == RelayChoices(S, n, nb, m)
 (* Specification                                                           *)
 (***************************************************************************)
 CONSTANTS Graphs,        \* the link relations explored (initial)
-          MaxFinds,      \* FindRoute calls per behaviour (incl. the searches relays start)
+          MaxFinds,      \* FindRoute calls made by applications per behaviour (relays start searches of their own)
           MaxInjects,    \* relayed streams entering the network per behaviour
           MaxExpires,    \* pending expiries / cancellations per behaviour
           MaxLosses,     \* lost messages per behaviour
@@ -269,9 +269,17 @@ OnRelay(m) ==
   /\ m.k = "relay"
   /\ LET n == m.to
          ch == RelayChoices(st[n], n, Nbrs(n), m)
-         canSearch == /\ n # m.dest /\ nfinds < MaxFinds /\ parked[n] = {}
+         \* (a relayed stream visits a node at most once, so it starts at most |Node| searches; these are not
+         \* taken from the MaxFinds budget)
+         canSearch == /\ n # m.dest /\ parked[n] = {}
                       /\ m.dest \notin DOMAIN st[n].finding
-     IN \/ /\ ch = {} /\ ~canSearch             \* delivered to the target, or the stream fails
+         canWait == n # m.dest /\ parked[n] = {} /\ m.dest \in DOMAIN st[n].finding
+     IN \/ /\ ch = {} /\ canWait                \* a search for the destination is already running here: wait for it
+           /\ Apply(n, Nothing(st[n]), BagRemove(net, m))
+           /\ parked' = [parked EXCEPT ![n] = @ \cup {m}]
+           /\ last' = [op |-> "deliver", m |-> MsgRec(m), fwd |-> {}]
+           /\ UNCHANGED nfinds
+        \/ /\ ch = {} /\ ~canSearch /\ ~canWait  \* delivered to the target, or the stream fails
            /\ Apply(n, Nothing(st[n]), BagRemove(net, m))
            /\ last' = [op |-> "deliver", m |-> MsgRec(m), fwd |-> {}]
            /\ UNCHANGED <<parked, nfinds>>
@@ -371,7 +379,7 @@ InFlightPathsOK ==
 
 RelaySkipOK == \A m \in DOMAIN net : RelayMsgOK(m)
 
-BoundedMessages == nsent <= MsgBound(MaxFinds, MaxInjects, Alpha, MaxTTL, Cardinality(Node))
+BoundedMessages == nsent <= MsgBound(MaxFinds + MaxInjects * Cardinality(Node), MaxInjects, Alpha, MaxTTL, Cardinality(Node))
 
 \* discovery terminates: under fair delivery the network drains for good
 Quiescence == <>[](net = <<>>)
